@@ -119,6 +119,11 @@ LITERALS = [
     ('colorfn-case', 'a{color:RGB(1,2,3);top:0}', 'a{color:rgb(1,2,3);top:0}'),
     ('not-case', 'a:NOT(.b){top:0}', 'a:not(.b){top:0}'),
     ('import-expression-first', '@import "x.css" (color);', None),
+    # from the defect hunt
+    ('url-upper-case-hex-escape', 'a{background:ur\\6C (x.png)} @import ur\\6C (x.css);', 'a{background:url(x.png)} @import url(x.css);'),
+    ('simple-escape-in-names', '@namespace s\\vg "urn:x";svg|a{color:red} .z\\oo{top:0} @media p\\rint{b{top:0}}', '@namespace svg "urn:x";svg|a{color:red} .zoo{top:0} @media print{b{top:0}}'),
+    ('calc-space-after-operator', 'a{width:calc(1px* 2);top:0} b{top:calc(6px/ 2)}', 'a{width:calc(1px * 2);top:0} b{top:calc(6px / 2)}'),
+    ('comment-next-to-combinator', 'a /**/ > b{color:red}', 'a > b{color:red}'),
 ]
 
 
